@@ -273,6 +273,18 @@ def admit_collect(ctx: Ctx) -> None:
                 + ("" if it_ok else " — not iterating over dag.nodes"),
                 sel="coverage",
             )
+        # ... and the function hands back that very list on every path
+        acc = {cl.func.value.id for cl in collect if isinstance(cl.func.value, ast.Name)}
+        rets = c2.returns()
+        ok_r = bool(rets) and all(r.stmt.value is not None and any(isinstance(x, ast.Name) and x.id in acc for x in ast.walk(r.stmt.value)) for r in rets) and not c2.falls_off_end()
+        ctx.ob(
+            find,
+            rets[0].stmt if rets else find.node,
+            ok_r,
+            "the collector returns the list it collected into, on every path"
+            + ("" if ok_r else " — a path returns something else / nothing: the caller sees an empty (falsy) result and no plan is ever refused"),
+            sel="returns-collected",
+        )
     elif comp:
         for cm in comp:
             extra = []
